@@ -1,5 +1,5 @@
 (* C03 - proofs.  The frame (unwinding) theorem over all interleavings and its instances. *)
-From Coq Require Import Lia.
+From Coq Require Import Lia ZifyBool ZifyN ZifyNat.
 From HT Require Import C03.Model C03.CheckLim.
 Open Scope N_scope.
 
@@ -162,6 +162,120 @@ Section LocalFrame.
   Qed.
 End LocalFrame.
 
+(* ---------- client addresses: the host key and the peer key are one-to-one ---------- *)
+Definition wfb (l : list N) : Prop := Forall (fun b => b < 256) l.
+Definition ip_len (ip : list N) : Prop := length ip = 4%nat \/ length ip = 16%nat.
+
+Lemma be_value_inj : forall a b acc1 acc2, wfb a -> wfb b -> length a = length b ->
+  be_value acc1 a = be_value acc2 b -> acc1 = acc2 /\ a = b.
+Proof.
+  induction a as [|x r IH]; intros [|y r'] acc1 acc2 Ha Hb Hl E; try discriminate.
+  - split; [exact E|reflexivity].
+  - cbn [be_value] in E. inversion Ha as [|? ? Hx Hr]; subst. inversion Hb as [|? ? Hy Hr']; subst.
+    cbn [length] in Hl. injection Hl as Hl.
+    destruct (IH r' _ _ Hr Hr' Hl E) as [E1 E2]. subst r'.
+    assert (acc1 = acc2 /\ x = y) as [-> ->] by lia. split; reflexivity.
+Qed.
+
+Lemma V4PREFIX_wf : wfb V4PREFIX.
+Proof. unfold wfb, V4PREFIX. repeat constructor. Qed.
+
+Lemma to16_len4 ip : length ip = 4%nat -> to16 ip = V4PREFIX ++ ip.
+Proof. intros H. unfold to16. rewrite H. reflexivity. Qed.
+Lemma to16_len16 ip : length ip = 16%nat -> to16 ip = ip.
+Proof. intros H. unfold to16. rewrite H. reflexivity. Qed.
+
+Lemma to16_length ip : ip_len ip -> length (to16 ip) = 16%nat.
+Proof.
+  intros [H|H]; [rewrite (to16_len4 _ H), app_length, H|rewrite (to16_len16 _ H), H]; reflexivity.
+Qed.
+
+Lemma to16_wf ip : ip_len ip -> wfb ip -> wfb (to16 ip).
+Proof.
+  intros [H|H] W; [rewrite (to16_len4 _ H)|rewrite (to16_len16 _ H); exact W].
+  apply Forall_app. split; [exact V4PREFIX_wf|exact W].
+Qed.
+
+(* net.IP.String as a key: two addresses (4 or 16 bytes, any bytes) have one key exactly when
+   they are one host - equal after To16 *)
+Theorem ip_key_injective : forall a b, wfb a -> wfb b -> ip_len a -> ip_len b ->
+  ip_key a = ip_key b -> to16 a = to16 b.
+Proof.
+  intros a b Wa Wb La Lb E. unfold ip_key in E.
+  apply (be_value_inj (to16 a) (to16 b) 0 0); auto using to16_wf.
+  now rewrite !to16_length.
+Qed.
+
+(* "one host" is: the same bytes - or the 4-byte and the v4-mapped 16-byte spelling of one IPv4 host *)
+Lemma to16_same_length : forall a b, ip_len a -> length a = length b -> to16 a = to16 b -> a = b.
+Proof.
+  intros a b [H|H] L E.
+  - rewrite (to16_len4 _ H), (to16_len4 b) in E by congruence. apply app_inv_head in E. exact E.
+  - rewrite (to16_len16 _ H), (to16_len16 b) in E by congruence. exact E.
+Qed.
+
+Lemma to16_cross : forall a b, length a = 4%nat -> length b = 16%nat -> to16 a = to16 b -> b = V4PREFIX ++ a.
+Proof. intros a b Ha Hb E. rewrite (to16_len4 _ Ha), (to16_len16 _ Hb) in E. now symmetry. Qed.
+
+(* the String() of a UDP/TCP address as a key: one-to-one on (host, zone, port) *)
+Theorem peer_key_injective : forall a b z1 z2 p1 p2,
+  wfb a -> wfb b -> ip_len a -> ip_len b -> z1 < ZONES -> z2 < ZONES -> p1 < PORTS -> p2 < PORTS ->
+  peer_key a z1 p1 = peer_key b z2 p2 -> to16 a = to16 b /\ z1 = z2 /\ p1 = p2.
+Proof.
+  intros a b z1 z2 p1 p2 Wa Wb La Lb Hz1 Hz2 Hp1 Hp2 E.
+  unfold peer_key, ZONES, PORTS in *.
+  assert (ip_key a = ip_key b /\ z1 = z2 /\ p1 = p2) as (Ek & -> & ->) by lia.
+  split; [apply ip_key_injective; assumption|split; reflexivity].
+Qed.
+
+Theorem peer_key_same_family : forall a b z1 z2 p1 p2,
+  wfb a -> wfb b -> ip_len a -> length a = length b -> z1 < ZONES -> z2 < ZONES -> p1 < PORTS -> p2 < PORTS ->
+  peer_key a z1 p1 = peer_key b z2 p2 -> a = b /\ z1 = z2 /\ p1 = p2.
+Proof.
+  intros a b z1 z2 p1 p2 Wa Wb La L Hz1 Hz2 Hp1 Hp2 E.
+  assert (Lb : ip_len b) by (destruct La as [H|H]; [left|right]; congruence).
+  destruct (peer_key_injective a b z1 z2 p1 p2 Wa Wb La Lb Hz1 Hz2 Hp1 Hp2 E) as (E1 & E2 & E3).
+  split; [apply to16_same_length; assumption|split; assumption].
+Qed.
+
+(* the addresses the harness gives its connections are of this kind *)
+Lemma ip_bytes_wf i : wfb (ip_bytes i).
+Proof.
+  unfold ip_bytes, wfb, V4PREFIX, hi_byte, lo_byte.
+  repeat match goal with |- context [if ?c then _ else _] => destruct c end;
+    cbn [app]; repeat constructor; apply N.mod_lt; discriminate.
+Qed.
+
+Lemma ip_bytes_len i : ip_len (ip_bytes i).
+Proof.
+  unfold ip_bytes, ip_len, V4PREFIX.
+  repeat match goal with |- context [if ?c then _ else _] => destruct c end; cbn [app length]; auto.
+Qed.
+
+Lemma zone_of_lt i : zone_of i < ZONES.
+Proof. unfold zone_of, ZONES. destruct (fam_of i =? 2); reflexivity. Qed.
+Lemma port_of_lt i : port_of i < PORTS.
+Proof. unfold port_of, PORTS. pose proof (N.mod_lt i 16). lia. Qed.
+
+Theorem ip_of_faithful : forall i j, ip_of i = ip_of j <-> to16 (ip_bytes i) = to16 (ip_bytes j).
+Proof.
+  intros i j. unfold ip_of. split.
+  - apply ip_key_injective; auto using ip_bytes_wf, ip_bytes_len.
+  - intros E. unfold ip_key. now rewrite E.
+Qed.
+
+Theorem peer_of_faithful : forall i j,
+  peer_of i = peer_of j <->
+  to16 (ip_bytes i) = to16 (ip_bytes j) /\ zone_of i = zone_of j /\ port_of i = port_of j.
+Proof.
+  intros i j. unfold peer_of. split.
+  - apply peer_key_injective; auto using ip_bytes_wf, ip_bytes_len, zone_of_lt, port_of_lt.
+  - intros (E1 & E2 & E3). unfold peer_key, ip_key. now rewrite E1, E2, E3.
+Qed.
+
+Lemma peer_of_ip i j : peer_of i = peer_of j -> ip_of i = ip_of j.
+Proof. intros E. apply ip_of_faithful. apply peer_of_faithful in E. tauto. Qed.
+
 (* ---------- tftp: limiter keyed by IP, buffers keyed by remote address ---------- *)
 Lemma lookup_store_same {V} k (v : V) l : lookup k (store k v l) = Some v.
 Proof. unfold store. cbn [lookup]. now rewrite N.eqb_refl. Qed.
@@ -187,8 +301,8 @@ Proof.
   apply lookup_remove_ne; exact H.
 Qed.
 
-Definition tftp_view (i : N) (s : tftp_shared) : N * option (N * N) :=
-  (used_of s (ip_of i), lookup i (t_bufs s)).
+Definition tftp_view (i : N) (s : tftp_shared) : N * option (N * N * N) :=
+  (used_of s (ip_of i), lookup (peer_of i) (t_bufs s)).
 
 Lemma used_of_store_same s ip n b : used_of (mkTftp (store ip n (t_used s)) b) ip = n.
 Proof. unfold used_of, lim_used. cbn [t_used]. now rewrite lookup_store_same. Qed.
@@ -206,12 +320,13 @@ Proof.
   { intros A y. unfold on_conn. cbn [filter fst]. destruct (N.eqb_spec j i); [contradiction|reflexivity]. }
   assert (Hip' : ip_of i <> ip_of j) by congruence.
   assert (Hne' : i <> j) by congruence.
+  assert (Hpk : peer_of i <> peer_of j) by (intro E; apply Hip'; apply peer_of_ip; exact E).
   unfold tftp_step. destruct x as [|t arg pick|]; try (split; [split; reflexivity|split; reflexivity]).
   destruct (BURST <=? used_of (shared a) (ip_of j)); [split; [split; reflexivity|split; reflexivity]|].
   unfold eqv, tftp_view.
   repeat match goal with
   | |- context [if ?c then _ else _] => destruct c
-  | |- context [match lookup j ?l with _ => _ end] => destruct (lookup j l) as [[? ?]|]
+  | |- context [match lookup (peer_of j) ?l with _ => _ end] => destruct (lookup (peer_of j) l) as [[[? ?] ?]|]
   end; cbn [fst snd shared conns t_bufs t_used no_outs];
   rewrite ?used_of_store_ne, ?lookup_store_ne, ?lookup_remove_ne by assumption;
   (split; [split; [apply Hc|reflexivity]|]); rewrite ?Hn1; split; reflexivity.
@@ -236,7 +351,7 @@ Proof.
   unfold eqv, tftp_view.
   repeat match goal with
   | |- context [if ?c then _ else _] => destruct c
-  | |- context [match lookup i ?l with _ => _ end] => destruct (lookup i l) as [[? ?]|] eqn:?
+  | |- context [match lookup (peer_of i) ?l with _ => _ end] => destruct (lookup (peer_of i) l) as [[[? ?] ?]|] eqn:?
   end; cbn [fst snd shared conns t_bufs t_used no_outs];
   rewrite ?used_of_store_same, ?lookup_store_same, ?lookup_remove_same;
   repeat match goal with H : lookup _ _ = _ |- _ => rewrite H end;
@@ -313,7 +428,7 @@ Proof.
   cbv zeta.
   repeat match goal with
   | |- context [if ?c then _ else _] => destruct c
-  | |- context [match lookup j ?l with _ => _ end] => destruct (lookup j l) as [[? ?]|]
+  | |- context [match lookup (peer_of j) ?l with _ => _ end] => destruct (lookup (peer_of j) l) as [[[? ?] ?]|]
   end; cbn [fst snd no_outs]; split; repeat constructor.
 Qed.
 
